@@ -164,3 +164,138 @@ prop(dict(
          "non-trivial = more than the padding-size site; distinct = distinct (packet, site list)",
     assumptions=RTP_ASSUME,
 ))
+
+
+# ---------------------------------------------------------------- C02 / C03
+def _py_image(p, rng):
+    """Independent (Python) RFC 3550/8285 encoder with random legal freedoms; the judge re-parses
+    every such image with the TLA+ reference decoder before using it (oracle_disagrees_with_case)."""
+    b = [p["ver"] << 6 | (32 if p["pad"] else 0) | (16 if p["x"] else 0) | len(p["csrc"]), (128 if p["m"] else 0) | p["pt"],
+         p["seq"] >> 8, p["seq"] & 255] + p["ts"] + p["ssrc"]
+    for c in p["csrc"]:
+        b += c
+    term = False
+    if p["x"]:
+        body = []
+        if p["profile"] in (0xBEDE, 0x1000):
+            for e in p["exts"]:
+                body += [0] * rng.choice([0, 0, 1, 2, 5])
+                if p["profile"] == 0xBEDE:
+                    body += [e["id"] << 4 | (len(e["val"]) - 1)] + e["val"]
+                else:
+                    body += [e["id"], len(e["val"])] + e["val"]
+            if p["profile"] == 0xBEDE and rng.random() < 0.15:
+                term = True
+                body += [0xF0 | rng.randint(0, 15)] + [rng.randint(1, 255) for _ in range(rng.randint(0, 6))]
+                while len(body) % 4:
+                    body.append(rng.randint(1, 255))
+            while len(body) % 4:
+                body.append(0)
+            if not term:
+                body += [0] * (4 * rng.choice([0, 0, 1, 2]))
+        else:
+            body = list(p["exts"][0]["val"])
+        b += [p["profile"] >> 8, p["profile"] & 255, (len(body) // 4) >> 8, (len(body) // 4) & 255] + body
+    n = len(b)
+    b += p["payload"]
+    if p["pad"]:
+        b += [rng.randint(0, 255) for _ in range(p["padsize"] - 1)] + [p["padsize"]]
+    return b, n, term
+
+
+def rand_c03(seed, tier, cases=None):
+    rng = random.Random(seed * 7919 + 3)
+    out = []
+    for _ in range(600 if tier == "quick" else 15000):
+        p = _rand_packet(rng)
+        if p["x"] and p["profile"] not in (0xBEDE, 0x1000) and 0x1000 < p["profile"] <= 0x100F:
+            p["profile"] = 0x2000  # RFC 8285 appbits: ambiguity the statement does not take a side on
+        if p["x"] and p["profile"] == 0xBEDE:
+            # id 0 / 15 never appear (SetExtension range); values non-empty
+            pass
+        img, n, term = _py_image(p, rng)
+        t = _ptags(p)
+        out.append(dict(fam="C03", kind="image", bytes=img, prev=[], p=p, n=n, term=term, tags=t,
+                        **{"class": "rand_image_" + t["layout"] + ("_term" if term else "")}))
+    return out
+
+
+def rand_c02(seed, tier, cases=None):
+    rng = random.Random(seed * 7919 + 2)
+    base = [c["bytes"] for c in (cases or []) if c.get("bytes")]
+    out = []
+    n = 3000 if tier == "quick" else 60000
+    for k in range(n):
+        mode = rng.random()
+        if mode < 0.35 or not base:
+            ln = rng.choice([0, 1, 3, 4, 11, 12, 13, 16, 20, rng.randint(0, 80)])
+            b = [rng.randint(0, 255) for _ in range(ln)]
+            if b and rng.random() < 0.7:
+                b[0] = (b[0] & 0x3F) | 0x80
+                if rng.random() < 0.5:
+                    b[0] |= 0x10
+            if len(b) > 16 and rng.random() < 0.5:
+                cc = b[0] & 15
+                off = 12 + 4 * cc
+                if off + 4 <= len(b):
+                    pr = rng.choice([[0xBE, 0xDE], [0x10, 0x00], [0x12, 0x34]])
+                    b[off:off + 2] = pr
+                    b[off + 2:off + 4] = [0, rng.randint(0, 4)]
+            cl = "rand_bytes"
+        else:
+            b = list(rng.choice(base))
+            for _ in range(rng.randint(1, 3)):
+                if b:
+                    i = rng.randrange(len(b))
+                    b[i] ^= 1 << rng.randrange(8)
+            cl = "rand_bitflip"
+        prev = list(rng.choice(base)) if base and rng.random() < 0.8 else [rng.randint(0, 255) for _ in range(rng.randint(0, 40))]
+        out.append(dict(fam="C02", kind="bytes", bytes=b, prev=prev, **{"class": cl}))
+    return out
+
+
+def _cls_prefix(c):
+    cl = c.get("class", "")
+    parts = cl.split("_")
+    return "_".join(parts[:2]) if parts[0] in ("mut", "rand", "image", "view", "trunc", "pair") else cl
+
+
+C02_CONST_T = {"Fam": '"C02"', "PayLens": "{0, 1, 5}", "PadSizes": "{0, 3, 255}", "CsrcCounts": "{0, 2, 15}", "Stride": "3", "Rich": "TRUE"}
+prop(dict(
+    id="C02", fam="C02",
+    mc=[("RtpMC.tla", "RtpMC.cfg", {"quick": {"KnobSet": '"some"', "PayLens": "{0, 5}", "PadSizes": "{0, 3}", "CsrcCounts": "{0, 2}"},
+                                     "thorough": dict(RTP_THOROUGH, KnobSet='"some"')})],
+    gen=[("RtpDecGen.tla", "RtpDecGen.cfg", {"thorough": C02_CONST_T})],
+    rand=rand_c02,
+    trace=("RtpTrace.tla", "RtpTraceC02.cfg"),
+    shards={"quick": 4, "thorough": 14},
+    workers=16,
+    class_of=_cls_prefix,
+    nontrivial=lambda c: len(c["bytes"]) >= 12,
+    mandatory=["trunc_onebyte", "trunc_noext", "mut_byte0", "mut_exthdr", "mut_extbody", "mut_last", "pair_onebyte", "rand_bytes", "rand_bitflip"],
+    rule="TLC derives from RFC-grammar images (RtpWire!Image): every truncation, single-position mutations at structural positions "
+         "(byte 0/1, extension header and first 12 body bytes, last byte) over a boundary alphabet, and (earlier, later) pairs; every case is decoded "
+         "into a fresh and into a used Packet and Header; seeded random strings and bit-flips are added; non-trivial = at least 12 bytes; distinct = distinct (bytes, prev)",
+    assumptions=RTP_ASSUME + ["accept/reject of malformed input is not judged (the statement does not fix it)"],
+))
+
+C03_CONST_T = {"Fam": '"C03"', "PayLens": "{0, 1, 5}", "PadSizes": "{0, 1, 7, 255}", "CsrcCounts": "{0, 1, 15}", "Stride": "12", "Rich": "TRUE", "KnobSet": '"some"'}
+prop(dict(
+    id="C03", fam="C03",
+    mc=[("RtpMC.tla", "RtpMC.cfg", {"quick": {"KnobSet": '"some"', "PadSizes": "{0, 1, 7}"},
+                                     "thorough": dict(RTP_THOROUGH, KnobSet='"all"', PayLens="{0, 1, 5}", PadSizes="{0, 1, 7, 255}", CsrcCounts="{0, 1, 15}")})],
+    gen=[("RtpDecGen.tla", "RtpDecGenC03.cfg", {"thorough": C03_CONST_T})],
+    rand=rand_c03,
+    trace=("RtpTrace.tla", "RtpTraceC03.cfg"),
+    shards={"quick": 4, "thorough": 14},
+    workers=16,
+    class_of=_cls_prefix,
+    nontrivial=lambda c: c.get("kind") != "bytes" or len(c["bytes"]) >= 12,
+    mandatory=["image_onebyte", "image_twobyte", "image_legacy", "image_noext", "view_onebyte", "view_twobyte", "view_legacy", "mut_exthdr", "rand_image"],
+    rule="TLC enumerates every image RtpWire!Image allows for each packet of RtpDom under the knob set (zero bytes before elements, trailing zero words, "
+         "one-byte terminator followed by junk, arbitrary padding fill), each with the value it was built from; standalone-view cases are the extension blocks of "
+         "those packets; accepted damaged inputs of the C02 family are re-encoded; a Python RFC encoder adds random images (re-parsed by the TLA+ reference "
+         "decoder before use); distinct = distinct case records",
+    assumptions=RTP_ASSUME + ["legacy profiles avoid 0x1001-0x100F (RFC 8285 appbits, read as legacy by the library)",
+                              "RawExtension.Get(0) may return the block with or without its 4-byte prefix (the statement does not fix the boundary)"],
+))
